@@ -31,8 +31,9 @@ def respell(roots, rnd, root):
 def pick_roots(tree, rnd, overlap=False):
     roots, rec = pick_roots0(tree, rnd)
     if overlap and rnd.random() < 0.3:
-        # overlapping file arguments of `update`: a directory and a file beneath it, the same file twice in two spellings
-        # (fix a048f63a: a NEW path named twice was archived twice)
+        # overlapping file arguments of create / append / update: a directory and a file beneath it, the same file twice in
+        # two spellings (fixes a048f63a, update: a NEW path named twice was archived twice; 4cfc8ff5, collect_items: create
+        # and append archived every path named twice twice, and `pna extract` of the result failed on the second copy)
         files, dirs = tree.files(), tree.dirs()
         if files:
             f = rnd.choice(files)
@@ -94,7 +95,7 @@ def one_history(c, rnd, hid, max_steps, force_mode=None, force_kinds=()):
             if t in ("C", "A", "U"):
                 op["kd"] = int(rnd.random() < 0.35)
                 op["kt"] = int(rnd.random() < 0.6)
-                roots, rec = pick_roots(tree, rnd, overlap=(t == "U"))
+                roots, rec = pick_roots(tree, rnd, overlap=True)
                 roots = from_cwd(roots)
                 if t != "C" and op["kd"] and rnd.random() < 0.2:
                     fifo = sb.path("t", rnd.choice(["zfifo", "d/afifo", "0sock"]))
@@ -213,7 +214,8 @@ def run(tier, seed, replay=None):
     c = Check("C11", tier, seed)
     c.rule = ("one case per step (archive before, operation with the walked nodes / glob table -> archive after) plus one case per "
               "whole history (the model threads its own state); distinct = distinct case text")
-    c.assumptions = ["file arguments of one command do not overlap (a path is walked once)",
+    c.assumptions = ["the walker yields the file arguments in the order given, each -r directory in pre-order over readdir order; overlapping "
+                     "arguments (a path walked twice) are generated for create, append and update",
                      "a rewriting command on a multipart archive leaves its result in the unsplit file next to the parts (remove_part); the history goes on with that file"]
     c.proofs()
     rnd = random.Random(seed)
